@@ -19,7 +19,8 @@ import textwrap
 
 
 class LoopSpec:
-    def __init__(self, invariant=(), decreases=None, types=None, unroll=False):
+    def __init__(self, invariant=(), decreases=None, types=None, unroll=False, assume_terminates=None):
+        self.assume_terminates = assume_terminates  # text: why termination is argued, not proved (an assumption)
         self.invariant = list(invariant)
         self.decreases = decreases
         self.types = dict(types or {})
